@@ -1,5 +1,6 @@
 import Driver.Loop
 import SquidModel.Header.Parse
+import SquidModel.Header.Mime
 open SquidModel SquidModel.Header
 
 namespace Driver.C26
@@ -48,6 +49,13 @@ def handle (line : String) : String :=
         let packed := pack r.entries
         describe r ++ " || pack=" ++ Bytes.toHex packed ++ " || " ++ showOutcome (parseHeader cfg packed)
       | o => showOutcome o
+    | _, _ => "bad-op"
+  | ["m", f, h] =>
+    match parseFlags f, Bytes.ofHex h with
+    | some cfg, some b =>
+      match grabMime b with
+      | none => "incomplete"
+      | some mime => "mime=" ++ Bytes.toHex mime ++ " " ++ showOutcome (parseHeader cfg mime)
     | _, _ => "bad-op"
   | ["l", h] =>
     match Bytes.ofHex h with
